@@ -38,12 +38,6 @@ end
 
 instance : BEq PData := ⟨beq⟩
 
-/-- Big-endian minimal byte representation of a natural number (empty for 0). -/
-def natToBytes (n : Nat) : Bytes :=
-  if _h : n = 0 then [] else natToBytes (n / 256) ++ [UInt8.ofNat (n % 256)]
-termination_by n
-decreasing_by omega
-
 /-! ### The standard convention, written from the specification -/
 
 open Cbor
